@@ -60,6 +60,20 @@ fn c06_topn_symbolic() {
         i += 1;
     }
 }
+// the real key type (Criteria) has a hand-written Ord (numeric / direction aware) and a *derived* PartialOrd that disagrees with it; the buffer
+// must order by Ord alone. DescKey: Ord = descending, PartialOrd (`<`, `>=`) = ascending.
+#[derive(Clone, Copy, PartialEq, Eq)] pub struct DescKey(pub u8);
+impl PartialOrd for DescKey { fn partial_cmp(&self, o: &DescKey) -> Option<core::cmp::Ordering> { self.0.partial_cmp(&o.0) } }
+impl Ord for DescKey { fn cmp(&self, o: &DescKey) -> core::cmp::Ordering { o.0.cmp(&self.0) } }
+#[kani::proof]
+#[kani::unwind(7)]
+fn c06_topn_ord_only() {
+    kani::cover!(true);
+    let mut t: TopN<DescKey, u8> = TopN::new(2);
+    t.insert(DescKey(10), 1); t.insert(DescKey(20), 2); t.insert(DescKey(30), 3);
+    let v = t.values();
+    assert!(v.len() == 2 && v.get(0) == Some(&3) && v.get(1) == Some(&2), "OBL C06.topn.ord: `order by size desc limit 2` keeps the two LARGEST (the buffer orders keys by Ord, never by the derived PartialOrd)");
+}
 #[kani::proof]
 #[kani::unwind(7)]
 fn canary_topn_must_fail() {
